@@ -30,7 +30,7 @@ func init() {
 			if m.Cover["table-names"] < 70 {
 				r = append(r, fmt.Sprintf("only %d table names observed", m.Cover["table-names"]))
 			}
-			for _, k := range []string{"accepted", "rejected", "fingerprint", "unimplemented"} {
+			for _, k := range []string{"accepted", "rejected", "fingerprint", "unimplemented", "experimental-name-rejected-by-default-after-history"} {
 				if m.Cover[k] == 0 {
 					r = append(r, "never observed: "+k)
 				}
@@ -139,17 +139,29 @@ func runC16(env *core.Env) {
 	}
 	sortStrings(sorted)
 	i := 0
-	for _, name := range sorted {
+	for ni, name := range sorted {
 		t, inTable := byName[name]
+		// all configurations of one name run in one worker, default and experimental compiles interleaved
+		if !env.Mine(ni) {
+			continue
+		}
 		for n := 0; n <= 4; n++ {
-			for _, exp := range []bool{false, true} {
+			for _, exp := range []bool{false, true, false} {
 				i++
-				if !env.Mine(i) {
-					continue
-				}
 				in := inTable && (!t.Experimental || exp)
 				c16Call(env, name, n, exp, in, t.Min, t.Max)
 			}
+		}
+	}
+	// after everything else this worker compiled (with and without WithExperimentalFuncs): the default table is
+	// still the default table
+	for _, t := range table {
+		if !t.Experimental {
+			continue
+		}
+		for n := t.Min; n <= t.Max && n <= 4; n++ {
+			c16Call(env, t.Name, n, false, false, t.Min, t.Max)
+			env.Cover("experimental-name-rejected-by-default-after-history")
 		}
 	}
 	if env.Shard == 0 {
